@@ -238,11 +238,13 @@ def prng(ctx):
     p = ctx.p
     n = 0
     for fi in p.functions.values():
-        if fi.module in ("sampling", "propagation", "driver") and any(
-                isinstance(nd, ast.Attribute) and nd.attr == "split" for nd in ast.walk(fi.node)):
-            n += common.prng1(ctx, fi)
+        if fi.module in ("sampling", "propagation") and any(
+                isinstance(nd, ast.Attribute) and isinstance(nd.value, ast.Name)
+                and nd.value.id == "random" for nd in ast.walk(fi.node)):
+            common.prng1(ctx, fi)
+            n += common.sampler_keys(ctx, fi)
     if n < 4:
-        raise AnalysisError(f"PRNG-1 matched {n} split sites (expected >= 4)")
+        raise AnalysisError(f"PRNG-1 found {n} sampler calls in sampling/propagation (expected >= 4)")
     common.det1(ctx, ["sampling", "propagation", "wavefunctions", "sr", "hamiltonian", "linalg_utils"])
 
 
